@@ -139,6 +139,68 @@ class Endpoint:
         q['mif'] = conn.max_inbound_frame_size
         return q
 
+    def zstate(self):
+        """Read-only projection of the connection's internal state in the shape of the model's Z(ep).
+        Every component is read defensively: a component that cannot be read (renamed attribute after a
+        refactoring) is reported as the string 'unreadable' and is then not compared."""
+        conn = self.conn
+        BY = {'SEND_END_STREAM': 'SES', 'RECV_END_STREAM': 'RES', 'SEND_RST_STREAM': 'SRST', 'RECV_RST_STREAM': 'RRST'}
+
+        def tri(v):
+            return 'N' if v is None else ('T' if v else 'F')
+
+        def by(v):
+            return 'N' if v is None else BY.get(v.name, v.name)
+
+        def wm(m):
+            return [absn.i32(m.current_window_size), absn.i32(m.max_window_size), absn.i32(m._bytes_processed)]
+
+        def txt(v):
+            if v is None:
+                return 'None'
+            return absn.printable(v.decode('latin-1') if isinstance(v, bytes) else v)
+
+        def settings(S):
+            out = []
+            for k, dq in S._settings.items():
+                vals = list(dq)
+                hn = vals[0] is None
+                out.append([int(k), [absn.i32(v) for v in (vals[1:] if hn else vals)], hn])
+            return out
+
+        z = {}
+
+        def put(key, fn):
+            try:
+                z[key] = fn()
+            except Exception:
+                z[key] = 'unreadable'
+
+        put('conn', lambda: conn.state_machine.state.name)
+        put('hiIn', lambda: conn.highest_inbound_stream_id)
+        put('hiOut', lambda: conn.highest_outbound_stream_id)
+        put('ow', lambda: absn.i32(conn.outbound_flow_control_window))
+        put('iw', lambda: wm(conn._inbound_flow_control_window_manager))
+
+        def streams():
+            out = []
+            for sid, s in conn.streams.items():
+                sm = s.state_machine
+                ecl = s._expected_content_length
+                out.append({'sid': sid, 'st': sm.state.name, 'cl': tri(sm.client), 'hs': bool(sm.headers_sent),
+                            'ts': bool(sm.trailers_sent), 'hr': bool(sm.headers_received),
+                            'tr': bool(sm.trailers_received), 'by': by(sm.stream_closed_by),
+                            'ow': absn.i32(s.outbound_flow_control_window), 'iw': wm(s._inbound_window_manager),
+                            'ecl': [] if ecl is None else [max(min(ecl, 2 ** 31 - 1), -(2 ** 31 - 1))],
+                            'acl': s._actual_content_length, 'meth': txt(s.request_method), 'auth': txt(s._authority)})
+            return out
+        put('streams', streams)
+        put('closed', lambda: [[sid, by(v)] for sid, v in conn._closed_streams.items()])
+        put('ls', lambda: settings(conn.local_settings))
+        put('rs', lambda: settings(conn.remote_settings))
+        put('hdrCap', lambda: conn.decoder.max_header_list_size)
+        return z
+
 
 def strip_private(frames):
     out = []
@@ -177,6 +239,7 @@ class Session:
         o = {'r': res, 'o': strip_private(self._public(frames)), 'e': evs}
         if with_q:
             o['q'] = ep.queries(self.qsids)
+            o['z'] = ep.zstate()
         return o
 
     @staticmethod
@@ -272,4 +335,9 @@ def diff(pred, obs, path=''):
         for k, v in pred['q'].items():
             if obs.get('q', {}).get(k) != v:
                 out.append('q.' + k)
+    if 'z' in pred and 'z' in obs:
+        for k, v in pred['z'].items():
+            got = obs['z'].get(k, 'unreadable')
+            if got != 'unreadable' and got != v:
+                out.append('z.' + k)
     return out
